@@ -265,10 +265,14 @@ class FakeOS:
         tty.k.seam("tty.write", len(data))
         if tty.write_hook is not None:
             tty.write_hook(bytes(data))
+        n = len(data)
+        if tty.short_write is not None:
+            n = tty.short_write(data)       # the terminal takes only a prefix this time
+            data = bytes(data)[:n]
         tty.writes.append(bytes(data))
         tty.output(bytes(data))
         tty.k.seam_after("tty.write")
-        return len(data)
+        return n
 
     def read(self, fd, n):
         if fd not in SIM_FDS:
@@ -312,6 +316,7 @@ class FakeOS:
 
 
 SimTTY.bytes_read = 0
+SimTTY.short_write = None
 
 
 def make_select(tty):
